@@ -408,6 +408,10 @@ func writeEvidence(ck *Check, tier string, seed int64, agg *Agg, wall float64, r
 		"violations":  len(agg.Violations),
 	}
 	b, _ := json.MarshalIndent(ev, "", " ")
-	_ = os.MkdirAll(filepath.Join(root, "evidence"), 0o755)
-	_ = os.WriteFile(filepath.Join(root, "evidence", ck.ID+".json"), b, 0o644)
+	edir := filepath.Join(root, "evidence")
+	if d := os.Getenv("VERIF_EVIDENCE_DIR"); d != "" { // runs against another checkout (VERIF_REPO) never touch the registered evidence
+		edir = d
+	}
+	_ = os.MkdirAll(edir, 0o755)
+	_ = os.WriteFile(filepath.Join(edir, ck.ID+".json"), b, 0o644)
 }
